@@ -415,8 +415,18 @@ def sfxMatch (g : Given) (args : List DArg) : Option String :=
 /-- operations whose two operands are interchangeable (the assembler is free to encode either order) -/
 def symmetric (mnem : String) : Bool := mnem == "xchg" || mnem == "test"
 
+/-- `XCHGQ AX, AX` is encoded as REX.W 0x90: exchanging the 64-bit accumulator with itself
+has no effect, like the nop the decoder names (not so for `XCHGL AX, AX`, whose 0x90 does not
+clear the upper half of RAX as a 32-bit exchange would). -/
+def selfXchgIsNop (g : Given) (dec : Decoded) : Bool :=
+  g.opcode == "XCHGQ" && dec.mnem == "rex.W+nop" && dec.args.isEmpty &&
+  (match g.ops with
+   | [.reg a, .reg b] => a.kind == 1 && a.idx == 0 && a.size == 8 && b.kind == 1 && b.idx == 0 && b.size == 8
+   | _ => false)
+
 /-- The verdict on an assembled instruction. -/
 def judge (g : Given) (dec : Decoded) : String :=
+  if selfXchgIsNop g dec then "ok" else
   if dec.mnem == "undecoded" || dec.mnem == "unparsed" || dec.mnem == "multiple" then s!"bad-decode {dec.mnem}" else
   let typed := g.sig.zip g.ops
   if typed.length != g.ops.length then "bad-request signature" else
